@@ -184,6 +184,14 @@ def run(chk, only=None):
         for _ in range(500 if quick else 5000):
             inputs.append((rng.randint(0, 3), bytes(rng.choice(b"(){}[];,*&=+-<>?:.#\"'\\/ \nintxyTuL01%^|~!") for _ in range(rng.randint(1, 30)))))
         inputs += pathological(rng, quick)
+        # declaration-centred random units (gen/declgen.py): every specifier / declarator / type-name form in every position, as units and as fragments
+        import declgen
+        for u in declgen.units(rng, 300 if quick else 6000):
+            inputs.append((0, u.encode()))
+            if rng.random() < 0.3:
+                b = u.encode()
+                cut = rng.randrange(len(b) + 1)
+                inputs.append((rng.choice([0, 1, 2, 3]), b[:cut] if rng.random() < 0.5 else b[cut:]))
         # the directive and marker code of Lexer::lex ('#' at the start of a line: line directives, Qt Creator expansion markers)
         dwords = [b"expansion", b"begin", b"end", b"line", b"~", b"~3", b"~4000000000", b"~18446744073709551615", b"1", b"7", b"1,2", b"4:5", b":", b",", b"\"f.c\"", b"x", b"include", b"<a.h>",
                   b"define", b"\\\n", b"\n", b"#", b"##", b"/*", b"*/", b"//", b"'", b"\"", b"0x", b"99999999999999999999", b"int y;"]
